@@ -34,8 +34,9 @@ PrWords == {"on", "off", "default"}
 
 \* Statement classes.  Everything except "read" and the two silent ones contains
 \* "something other than plain reads".
+\* multi_txr / multi_txw: a message that starts a transaction and continues with reads / writes
 WriteClasses == {"insert", "update", "delete", "ddl", "utility", "txstart", "locking_read",
-                 "writing_cte", "select_into", "multi_rw", "multi_wr"}
+                 "writing_cte", "select_into", "multi_rw", "multi_wr", "multi_txr", "multi_txw", "multi_rtx"}
 ReadClasses == {"read", "multi_rr"}
 SilentClasses == {"unparseable", "empty"}
 Classes == WriteClasses \cup ReadClasses \cup SilentClasses
